@@ -325,7 +325,7 @@ Section ExprWithRec.
   Definition parse_literals : P node := alt [parse_literal_basic; parse_literal_set].
 
   Definition parse_method_call : P node :=
-    memo_ok_only CACHE_METHOD_CALL (
+    memo CACHE_METHOD_CALL (
       id <- parse_identifier ;;
       _ <- exp_token TOBracket ;;
       ps <- sep_list rec_expr TComma ;;
